@@ -248,6 +248,14 @@ def render(t):
         for k, v in t['boms']))
     w('    defaultIndent := %d' % int(t['default_indent']))
     w('    defaultEncoding := %s }' % lean_text(t['default_encoding']))
+    w('/-- the state tree under `.. _spec-section-order:` in docs/spec/section-format.rst, as written -/')
+    outline = t['spec_tree'].get('outline', [])
+    def sid_of(x):
+        r = split_id(x)
+        return lean_sid(r) if r else '⟨99, .diffx⟩'
+    w('def specOutline : List (SecId × List SecId) := [')
+    w(',\n'.join('  (%s, [%s])' % (sid_of(k), ', '.join(sid_of(x) for x in v)) for k, v in outline))
+    w(']')
     w('')
     w('end Diffx.Generated')
     return '\n'.join(o) + '\n'
